@@ -14,6 +14,7 @@ package main
 import (
 	"encoding/json"
 	"fmt"
+	"math/bits"
 	"os"
 	"sort"
 	"strings"
@@ -37,20 +38,25 @@ type op struct {
 }
 
 type world struct {
-	w         *fwd.World
-	start     uint16
-	cursor    int64
-	highest   int64
-	received  map[int64]bool
-	nacked    map[int64]int // position -> times NACKed by the receive loop
-	holeAge   map[int64]int // in-order arrivals since the hole appeared
-	regime    int           // packets threshold of the rate regime (2, 8, 24)
-	lastE     int64         // last extended highest seqno reported
-	haveE     bool
-	restarted bool
-	steady    bool // no restart/jump since the hole bookkeeping started
-	outcome   string
-	nops      int
+	// the last packet received before the most recent gap opened, and the
+	// number of packets that arrived since (it is still in the cache while
+	// that number is far below the cache's capacity)
+	preGap      int64
+	preGapSince int
+	w           *fwd.World
+	start       uint16
+	cursor      int64
+	highest     int64
+	received    map[int64]bool
+	nacked      map[int64]int // position -> times NACKed by the receive loop
+	holeAge     map[int64]int // in-order arrivals since the hole appeared
+	regime      int           // packets threshold of the rate regime (2, 8, 24)
+	lastE       int64         // last extended highest seqno reported
+	haveE       bool
+	restarted   bool
+	steady      bool // no restart/jump since the hole bookkeeping started
+	outcome     string
+	nops        int
 }
 
 func fresh(start uint16, preroll int) func() seqx.World {
@@ -59,7 +65,7 @@ func fresh(start uint16, preroll int) func() seqx.World {
 		vrt.TaskPolicy = func(string) vrt.Policy { return vrt.Drop }
 		go w.Up.ReadLoop()
 		x := &world{w: w, start: start, highest: -1, received: map[int64]bool{}, nacked: map[int64]int{},
-			holeAge: map[int64]int{}, regime: 2, steady: true}
+			holeAge: map[int64]int{}, regime: 2, steady: true, preGap: -1}
 		if preroll > 0 {
 			// put the rate estimator in the wanted regime: preroll packets
 			// in the last second (accumulated directly, as readLoop does per
@@ -122,6 +128,11 @@ func (w *world) Ops() []seqx.Op {
 		// report (the interval expects one packet and receives none)
 		ops = append(ops, op{Kind: "dnack-interval"})
 	}
+	// a downstream receiver asks for the last packet that arrived before the
+	// newest gap (it is in the cache: answered from there, nothing goes upstream)
+	if w.preGap >= 0 && w.preGapSince < 16 && w.received[w.preGap] {
+		ops = append(ops, op{Kind: "dnack-received"})
+	}
 	ops = append(ops, op{Kind: "stats", N: 1}, op{Kind: "stats", N: 0})
 	ops = append(ops, op{Kind: "restart"}, op{Kind: "jump"})
 	return ops
@@ -143,6 +154,10 @@ func (w *world) feed(p int64) *core.Violation {
 	first := !w.received[p]
 	w.received[p] = true
 	inorder := p == w.highest+1
+	w.preGapSince++
+	if p > w.highest+1 && w.highest >= 0 && w.received[w.highest] {
+		w.preGap, w.preGapSince = w.highest, 0
+	}
 	if p > w.highest {
 		// positions between become holes
 		// only holes near the newest packet are ever looked at again (the
@@ -301,6 +316,30 @@ func (w *world) Apply(x seqx.Op) *core.Violation {
 		}
 		w.nops--
 		return w.sample(true)
+	case "dnack-received":
+		if w.preGap < 0 || !w.received[w.preGap] {
+			return nil
+		}
+		q := w.preGap
+		buf := make([]byte, packetcache.BufSize)
+		w.w.UpRTCP.Take()
+		vrt.TaskPolicy = func(string) vrt.Policy { return vrt.Queue }
+		n := w.w.Up.UpTrack().GetPacket(w.seq(q), buf, true)
+		for len(vrt.Pending()) > 0 {
+			vrt.TakeTask(0).Fn()
+		}
+		for _, r := range w.w.UpRTCP.Take() {
+			if nk, ok := r.(*rtcp.TransportLayerNack); ok {
+				for _, pair := range nk.Nacks {
+					for _, sq := range pair.PacketList() {
+						if sq == w.seq(q) {
+							return viol("nack-for-received-packet", fmt.Sprintf("a receiver asked for seqno %d, which arrived %d packets ago (%d numbers behind the newest, across a gap); GetPacket returned %d bytes and the packet was requested upstream although it had been received", sq, w.preGapSince, w.highest-q, n))
+						}
+					}
+				}
+			}
+		}
+		w.outcome = fmt.Sprintf("dnack-received/%v", n > 0)
 	case "dnack":
 		h := w.holes()
 		if len(h) == 0 {
@@ -342,6 +381,7 @@ func (w *world) Apply(x seqx.Op) *core.Violation {
 		w.received, w.nacked, w.holeAge = map[int64]bool{}, map[int64]int{}, map[int64]int{}
 		w.restarted = true
 		w.steady = false
+		w.preGap = -1
 		p := w.cursor
 		w.cursor++
 		return w.feed(p)
@@ -385,6 +425,13 @@ func (w *world) Canon() string {
 	}
 	if w.nops < 3 {
 		fmt.Fprintf(&b, "#n%d", w.nops)
+	}
+	if w.preGap >= 0 && w.preGapSince < 16 {
+		d := w.highest - w.preGap
+		if d > 64 {
+			d = 64 + int64(bits.Len64(uint64(d)))
+		}
+		fmt.Fprintf(&b, "#g%d,%d", d, w.preGapSince)
 	}
 	return b.String()
 }
